@@ -50,7 +50,7 @@ import shutil
 import time
 import numpy as np
 
-from .. import runner, netgen, xmlout, netlevel
+from .. import runner, netgen, xmlout, netlevel, lsq
 from ..runner import Check, tier_n
 from ..netgen import Pt, Obs, Cluster, GON
 
@@ -1685,13 +1685,28 @@ def run(tier, seed, only=None):
                 bad = netlevel.compare_physical(A, B, tol_m=1e-7, rel=1e-6)
             else:
                 ck.count("deletion: runs with different iteration counts (linearisation-criterion tolerances)")
-                bad = netlevel.compare_physical(A, B, tol_m=1e-6, rel=netlevel.rel_between_linearisation_points(net), res_tol=1e-2)
+                # what the stopping rule leaves open in the coordinates, from the recorded system of the run with
+                # exclusions (weak intersections amplify it); residuals follow with the design-matrix coefficients
+                evs1 = netlevel.adjust_events(g1)
+                lin_mm = 0.0
+                if evs1:
+                    r1 = lsq.Reference(netlevel.event_problem(evs1[-1]))
+                    coords1 = [k + 1 for k, u in enumerate(evs1[-1]["unknowns"]) if u["type"] in ("X", "Y", "Z")]
+                    if r1.ok and r1.T is not None:
+                        lin_mm = netlevel.linearisation_bound(r1, coords1) + netlevel.linearisation_bound_residual_term(
+                            r1, coords1, evs1[-1]["x"], netlevel.min_sight(net))
+                tol_m = max(1e-6, 2e-3 * lin_mm)      # two runs
+                dmin_mm = max(netlevel.min_sight(net), 1.0) * 1000.0
+                res_tol = max(1e-2, tol_m * 1e3 * max(1.0, 636620.0 / dmin_mm))
+                ck.ratio("deletion: coordinate tolerance between linearisation points [m] / 1e-6", tol_m, 1e-6)
+                bad = netlevel.compare_physical(A, B, tol_m=tol_m, rel=netlevel.rel_between_linearisation_points(net), res_tol=res_tol)
             seen_k = set()
             for key, msg, okey in bad:
                 if key in seen_k:
                     continue
                 seen_k.add(key)
-                ck.violation("deletion:%s" % key, "%s [run with exclusions vs reduced input, %s, case %d]" % (msg, alg, i), wit)
+                ck.violation("deletion:%s" % key, "%s [run with exclusions vs reduced input, %s, case %d; iterations %s vs %s]" % (
+                    msg, alg, i, g1.xml.get("iterations"), g2.xml.get("iterations")), wit)
             ck.count("deletion: fields compared", len(A["points"]) * 3 + sum(len(x) for x in A["obs"].values()) + len(A["cov"]))
             if i < 3 and alg == ALGS[i % 4]:
                 ck.sample(dict(index=i, kind=net.kind, tol_abs=info["tol"], defects=info["defects"],
